@@ -21,6 +21,7 @@ func main() {
 		lwg.Add(1)
 		go func() { defer lwg.Done(); lateForwardReply(r) }()
 		closeDuringRoundTrip(r)
+		failedForwardWhileLocked(r)
 		defer lwg.Wait()
 		n := r.Pick(500, 10000)
 		st := sh.Batch(r, "C08", "hist", n, 8, func(c *ev.Case, i int) sh.Config {
